@@ -81,7 +81,9 @@ def classify(spec, exp_out, exp_term, got_out, got_term):
         return "merge/tie-order"
     if tool == "iter_sentinel" and "identical_at" in spec["params"] and spec.get("raw"):
         return "iter_sentinel/identity-shortcut"
-    if tool == "accumulate" and spec["params"].get("initial") == ["none"]:
+    if tool == "accumulate" and spec["params"].get("initial") == ["none"] and list(got_out[:1]) == [("v", "NoneType", None)] \
+            and list(exp_out[:1]) != [("v", "NoneType", None)]:
+        # exactly the recorded mechanism: None is treated as a value and yielded first
         return "accumulate/initial-none"
     if exp_term != got_term:
         return f"{tool}/termination"
